@@ -155,10 +155,16 @@ def meta_ints(md):
 # ------------------------------------------------------------------------------------------------
 
 def snap(mol):
-    """coordinates -> exact multiples of 1/10000 (k/10000 formats and parses exactly)"""
+    """coordinates -> exact multiples of 1/10000 (k/10000 formats and parses exactly). MOL files carry cis/trans only as
+    geometry, so the cis/trans labels are re-derived from the drawing (the drawing is the record being written)."""
     for _, a in mol.atoms():
         a.x = kcoord(a.x) / 10000
         a.y = kcoord(a.y) / 10000
+    if any(b.stereo is not None for *_, b in mol.bonds()):
+        for *_, b in mol.bonds():
+            b._stereo = None
+        mol.flush_cache()
+        mol.calculate_cis_trans_from_2d()
     mol.flush_cache()
     return mol
 
@@ -241,6 +247,28 @@ def real_sdf_text(mol, mapping=True, cls=None):
     return f.getvalue()
 
 
+def real_parse3000(lines):
+    from chython.files.mdl import parse_mol_v3000
+    try:
+        tmp = parse_mol_v3000(list(lines))
+        return 'ok ' + show_pmol(tmp) + ' X ' + show_meta(tmp['meta'])
+    except Exception as e:
+        return exc_name(e)
+
+
+def real_rdf_text(obj, v3=False, mapping=True):
+    """text written by RDFWrite/ERDFWrite *after* the time-stamped two-line header (checked separately)"""
+    from chython import RDFWrite, ERDFWrite
+    f = io.StringIO()
+    w = (ERDFWrite if v3 else RDFWrite)(f, mapping=mapping)
+    w.write(obj)
+    t = f.getvalue()
+    l = t.split('\n', 2)
+    if l[0] != '$RDFILE 1' or not l[1].startswith('$DATM    '):
+        raise AssertionError('RDF header changed: ' + repr(t[:60]))
+    return l[2]
+
+
 def real_parse2000(lines):
     from chython.files.mdl import parse_mol_v2000
     try:
@@ -271,8 +299,109 @@ class patched_sdf:
         self.S.create_molecule, self.S.postprocess_molecule = self.saved
 
 
+def show_any(tmp):
+    if 'meta' in tmp:   # only parse_mol_v3000 returns a 'meta' entry
+        return 'v3 ' + show_pmol(tmp) + ' X ' + show_meta(tmp['meta'])
+    return 'v2 ' + show_pmol(tmp)
+
+
 def show_rec(stub):
-    return (show_pmol(stub.tmp) + ' MAP ' + ' '.join(map(str, stub.tmp['mapping'])) + ' ' + show_meta(stub.meta))
+    return (show_any(stub.tmp) + ' MAP ' + ' '.join(map(str, stub.tmp['mapping'])) + ' ' + show_meta(stub.meta))
+
+
+def show_rxn(tmp):
+    grp = lambda t, ms: f' {t} {len(ms)} ' + ' ; '.join(show_pmol(m) + (' X ' + show_meta(m['meta']) if 'meta' in m else '') for m in ms)
+    return f"T {optstr(tmp['title'])}" + grp('R', tmp['reactants']) + grp('P', tmp['products']) + grp('G', tmp['reagents'])
+
+
+class _RStub(_Stub):
+    def molecules(self):
+        return []
+
+
+class patched_rdf:
+    def __enter__(self):
+        import chython.files.RDFrw as S
+        self.S = S
+        self.saved = (S.create_molecule, S.postprocess_molecule, S.create_reaction, S.postprocess_parsed_reaction)
+        S.create_molecule = lambda tmp, **kw: _Stub(tmp)
+        S.postprocess_molecule = lambda mol, tmp, **kw: None
+        S.create_reaction = lambda tmp, **kw: _RStub(tmp)
+        S.postprocess_parsed_reaction = lambda tmp, **kw: None
+        return self
+
+    def __exit__(self, *a):
+        S = self.S
+        S.create_molecule, S.postprocess_molecule, S.create_reaction, S.postprocess_parsed_reaction = self.saved
+
+
+def show_rrec(stub, buf):
+    if isinstance(stub, _RStub):
+        kind = 'rxn3' if buf[4].startswith('M  V30 COUNTS') else 'rxn2'
+        return f'{kind} ' + show_rxn(stub.tmp) + ' ' + show_meta(stub.meta)
+    return 'mol ' + show_any(stub.tmp) + ' MAP ' + ' '.join(map(str, stub.tmp['mapping'])) + ' ' + show_meta(stub.meta)
+
+
+def real_rdfread(text, bufsize):
+    """mirror of the driver's `rdfread`"""
+    from chython import RDFRead
+    out = []
+    with patched_rdf():
+        r = RDFRead(io.StringIO(text), buffer_size=bufsize)
+        for _ in range(text.count('\n') + 3):
+            try:
+                r._read_block(current=False)
+            except Exception as e:
+                out.append(exc_name(e))
+                break
+            buf, ms = r._buffer, r._RDFRead__m_start
+            head = f'blk {len(buf)} {ms or 0} '
+            try:
+                stub = r.read_structure(current=True)
+                out.append(head + 'ok ' + show_rrec(stub, buf))
+            except Exception as e:
+                out.append(head + exc_name(e))
+        r = RDFRead(io.StringIO(text), buffer_size=bufsize)
+        n, crash = 0, '-'
+        try:
+            for _ in r:
+                n += 1
+        except Exception as e:
+            crash = type(e).__name__
+        out.append(f'iter {n} {crash}')
+        # index + random access on a real file
+        d = tempfile.mkdtemp(prefix='c11_')
+        p = os.path.join(d, 'f.rdf')
+        try:
+            with open(p, 'w', newline='') as f:
+                f.write(text)
+            try:
+                r = RDFRead(p, indexable=True, buffer_size=bufsize)
+            except Exception as e:  # no $RFMT/$MFMT line at all: grep exits 1
+                out.append('noindex')
+                return out
+            try:
+                shifts = list(r._shifts or [])
+                out.append('idx ' + ' '.join(map(str, shifts)))
+                for i in range(len(shifts)):
+                    try:
+                        stub = r[i]
+                        out.append(f'get {i} ok ' + show_rrec(stub, r._buffer))
+                    except Exception as e:
+                        out.append(f'get {i} ' + exc_name(e))
+            finally:
+                r.close()
+                try:
+                    os.remove(r._cache_path)
+                except OSError:
+                    pass
+        finally:
+            try:
+                os.remove(p)
+                os.rmdir(d)
+            except OSError:
+                pass
+    return out
 
 
 def real_sdfread(text, bufsize):
@@ -502,6 +631,27 @@ def stream_writer(ctx, mols):
         ctx.sample({'stream': 'W', 'case': texts[0][0], 'text_head': texts[0][2][:200]})
     bw.run()
     bp.run()
+    # V3000 dialect on the same molecules
+    from chython import ESDFWrite
+    bw3 = Batch(ctx, 'W:sdf-v3000')
+    bp3 = Batch(ctx, 'P:v3000-written')
+    texts3 = []
+    for tag, m, _ in texts:
+        mapping = rng.random() < 0.85
+        try:
+            t3 = real_sdf_text(m, mapping, ESDFWrite)
+            real = 'ok ' + cps(t3)
+        except Exception as e:
+            t3, real = None, exc_name(e)
+        bw3.add(f'esdfwrite {int(mapping)} ' + ' '.join(map(str, wmol_ints(m) + meta_ints(m.meta))), real,
+                (tag, 'esdfwrite'), key=(tag, real))
+        if t3 is not None and '\r' not in t3 and '\n' not in m.name:
+            texts3.append((tag, m, t3))
+            lines = t3.split('M  END\n')[0].splitlines(keepends=True) + ['M  END\n']
+            bp3.add('pmol3000 ' + raw(''.join(lines)), real_parse3000(lines), (tag, 'parse-written-v3'), key=''.join(lines))
+    bw3.run()
+    bp3.run()
+    _state['texts3'] = texts3
     return texts
 
 
@@ -523,6 +673,203 @@ def stream_parse_corrupt(ctx, texts, n):
         ctx.dist('P:outcome:' + real.split(' ')[0])
         b.add('pmol2000 ' + raw(''.join(lines)), real, (tag, 'corrupt', kinds), key=''.join(lines))
     b.run()
+
+
+V3_EDITS = [' CHG=2', ' CHG=-1', ' CHG=x', ' MASS=13', ' MASS=', ' RAD=2', ' RAD', ' CFG=1', ' CFG=3', ' CFG=2', ' CFG=1=1', ' FOO=(1 2 3)',
+            ' "a b"', ' (1 2', ' -', '-', ' ENDPTS=(2 1 2)', ' ATTCHORD=(2 1 Al)', ' HCOUNT=1']
+
+
+def corrupt_v3(rng, lines):
+    lines = list(lines)
+    kind = rng.choice(['generic', 'generic', 'kv', 'kv', 'cont', 'token', 'counts', 'sgroup'])
+    cand = [i for i, l in enumerate(lines) if l.startswith('M  V30 ') and l[7:8].isdigit()]
+    if kind == 'generic' or not cand:
+        return corrupt_lines(rng, lines)
+    i = rng.choice(cand)
+    body = lines[i].rstrip('\n')
+    if kind == 'kv':
+        lines[i] = body + rng.choice(V3_EDITS) + '\n'
+    elif kind == 'cont':   # split the line with a continuation mark
+        j = rng.randrange(8, len(body) + 1)
+        lines[i:i + 1] = [body[:j] + '-\n', 'M  V30 ' + rng.choice(['', ' ', '  ']) + body[j:] + rng.choice(['\n', '  \n'])]
+    elif kind == 'token':
+        toks = body.split(' ')
+        j = rng.randrange(len(toks))
+        toks[j] = rng.choice(['D', 'R#', '[C,N]', 'NOT[C]', '*', '9', '10', '0', '-1', 'x', '1.5', '', '  ', 'H', '1e1'])
+        lines[i] = ' '.join(toks) + '\n'
+    elif kind == 'counts':
+        for k, l in enumerate(lines):
+            if l.startswith('M  V30 COUNTS'):
+                lines[k] = rng.choice(['M  V30 COUNTS 0 0 0 0 0\n', 'M  V30 COUNTS 1\n', 'M  V30 COUNTS -1 2 0 0 0\n', 'M  V30 COUNTS 2 1 0 0 0 A=b C= =d A=e\n',
+                                       'M  V30 COUNTS x y\n', l.rstrip('\n') + ' K=v\n'])
+    elif kind == 'sgroup':
+        for k, l in enumerate(lines):
+            if l.startswith('M  V30 END CTAB'):
+                lines[k:k] = ['M  V30 BEGIN SGROUP\n', 'M  V30 1 DAT 0 ATOMS=(1 1) FIELDNAME=MRV_IMPLICIT_H FIELDDATA=IMPL_H1\n', 'M  V30 END SGROUP\n']
+                break
+    return kind, lines
+
+
+def stream_parse_corrupt_v3(ctx, n):
+    rng = ctx.rng
+    texts3 = _state.get('texts3') or []
+    if not texts3:
+        return
+    b = Batch(ctx, 'P:v3000-corrupted')
+    bs = Batch(ctx, 'P:v3000-split')
+    for _ in range(n):
+        tag, m, text = rng.choice(texts3)
+        lines = text.split('M  END\n')[0].splitlines(keepends=True) + ['M  END\n']
+        kinds = []
+        for _ in range(rng.choice([1, 1, 2])):
+            k, lines = corrupt_v3(rng, lines)
+            kinds.append(k)
+        if any('\r' in l for l in lines):
+            continue
+        real = real_parse3000(lines)
+        ctx.dist('P3:outcome:' + real.split(' ')[0])
+        b.add('pmol3000 ' + raw(''.join(lines)), real, (tag, 'corrupt-v3', kinds), key=''.join(lines))
+    from chython.files.mdl.emol import split
+    alpha = 'ab1 ()"=-  '
+    for _ in range(n // 2):
+        t = ''.join(rng.choice(alpha) for _ in range(rng.randint(0, 14)))
+        bs.add('v3split ' + raw(t), ' '.join(cps(x) for x in split(t)), ('split', t))
+    b.run()
+    bs.run()
+
+
+def rand_reaction(rng, texts):
+    from chython import ReactionContainer
+    pick = lambda k: [rng.choice(texts)[1].copy() for _ in range(k)]
+    r = ReactionContainer(pick(rng.choice([0, 1, 1, 2, 3])), pick(rng.choice([0, 1, 1, 2])), pick(rng.choice([0, 0, 0, 1, 2])))
+    r.name = rng.choice(['', rand_text(rng, 1, 20), ' x '])
+    r.meta.update(rand_meta(rng, wf=rng.random() < 0.7))
+    return r
+
+
+def wrxn_ints(r):
+    out = enc(r.name)
+    for grp in (r.reactants, r.products, r.reagents):
+        out.append(len(grp))
+        for m in grp:
+            out += wmol_ints(m)
+    return out
+
+
+def stream_rdf(ctx, texts, n):
+    """RDF writers (molecule + reaction, both dialects), then framing/parse/iteration/index on the written and corrupted files"""
+    rng = ctx.rng
+    bw = Batch(ctx, 'W:rdf')
+    bf = Batch(ctx, 'F:rdf-multi-record')
+    pieces = []
+    for _ in range(n):
+        v3 = rng.random() < 0.5
+        mapping = rng.random() < 0.85
+        if rng.random() < 0.5:
+            tag, m, _t = rng.choice(texts)
+            m = m.copy()
+            m.meta.clear()
+            m.meta.update(rand_meta(rng, wf=rng.random() < 0.7))
+            try:
+                t = real_rdf_text(m, v3, mapping)
+                real = 'ok ' + cps(t)
+            except AssertionError:
+                raise
+            except Exception as e:
+                t, real = None, exc_name(e)
+            bw.add(f'rdfwmol {int(v3)} {int(mapping)} ' + ' '.join(map(str, wmol_ints(m) + meta_ints(m.meta))), real,
+                   (tag, 'rdfwmol', v3), key=real)
+        else:
+            r = rand_reaction(rng, texts)
+            try:
+                t = real_rdf_text(r, v3, mapping)
+                real = 'ok ' + cps(t)
+            except AssertionError:
+                raise
+            except Exception as e:
+                t, real = None, exc_name(e)
+            bw.add(f'rdfwrxn {int(v3)} {int(mapping)} ' + ' '.join(map(str, wrxn_ints(r) + meta_ints(r.meta))), real,
+                   ('rxn', 'rdfwrxn', v3, len(r.reactants), len(r.products), len(r.reagents)), key=real)
+            ctx.dist(f'W:rxn:{len(r.reactants)}>{len(r.reagents)}>{len(r.products)}')
+        if t is not None and '\r' not in t:
+            pieces.append(t)
+    bw.run()
+    if not pieces:
+        return
+    for _ in range(n):
+        k = rng.randint(1, 4)
+        recs = [rng.choice(pieces) for _ in range(k)]
+        for pos in range(k):
+            rs = list(recs)
+            lines = rs[pos].splitlines(keepends=True)
+            mode = rng.choice(['edit', 'edit', 'edit', 'v3edit', 'empty', 'garbage', 'short', 'fmt-in-meta', 'dtype-first', 'intact', 'del-mol'])
+            if mode == 'edit':
+                _, lines = corrupt_lines(rng, lines)
+                rs[pos] = ''.join(lines)
+            elif mode == 'v3edit':
+                _, lines = corrupt_v3(rng, lines)
+                rs[pos] = ''.join(lines)
+            elif mode == 'empty':
+                rs[pos] = lines[0]
+            elif mode == 'garbage':
+                rs[pos] = lines[0] + ''.join(rand_text(rng, 0, 30) + '\n' for _ in range(rng.randint(1, 6)))
+            elif mode == 'short':
+                rs[pos] = ''.join(lines[:rng.randint(1, 5)])
+            elif mode == 'fmt-in-meta':
+                rs[pos] = ''.join(lines) + '$DTYPE k\n$DATUM a\n' + rng.choice(['$MFMT', '$RFMT x', ' $RFMT', '$DTYPE', '$DTYPE  ', '$RXN']) + '\nrest\n'
+            elif mode == 'dtype-first':
+                rs[pos] = lines[0] + '$DTYPE k\n$DATUM v\n' + ''.join(lines[1:])
+            elif mode == 'del-mol':
+                idx = [i for i, l in enumerate(lines) if l.startswith('$MOL') or l.startswith('M  V30 BEGIN CTAB')]
+                if idx:
+                    i = rng.choice(idx)
+                    del lines[i:i + rng.randint(1, 8)]
+                    rs[pos] = ''.join(lines)
+            text = rng.choice(['$RDFILE 1\n$DATM    01/01/26 00:00\n', '', 'junk\n']) + ''.join(rs)
+            if '\r' in text:
+                continue
+            bsz = rng.choice([10000, 10000, 10000, rng.randint(5, 60)])
+            exp = real_rdfread(text, bsz)
+            ctx.dist('FR:mode:' + mode)
+            if exp and exp[-1] == 'noindex':
+                e = ' | '.join(exp[:-1])
+                bf.add(f'rdfread {bsz} ' + raw(text), (lambda g, e=e: g.split(' | idx')[0] == e), (mode, pos, k), key=text)
+            else:
+                bf.add(f'rdfread {bsz} ' + raw(text), ' | '.join(exp), (mode, pos, k), key=text)
+    bf.run()
+    # the repository's own RDF test files
+    bt = Batch(ctx, 'F:repo-test-files-rdf')
+    for p in sorted((core.REPO / 'test').glob('*.rdf')):
+        text = p.read_text()
+        if '\r' in text or not text.isascii():
+            ctx.dist('F:skipped-non-ascii-or-cr')
+            continue
+        if ctx.quick:
+            parts = re.split(r'(?m)^(?=\$[RM]FMT)', text)
+            text = ''.join(parts[:6])
+        exp = real_rdfread(text, 10000)
+        bt.add('rdfread 10000 ' + raw(text), ' | '.join(exp), (p.name,), key=p.name)
+    bt.run()
+    # metadata blocks
+    bm = Batch(ctx, 'M:rdf-metadata')
+    from chython import RDFRead
+    alpha = PRINTABLE + '$$DATUMDTYPE  '
+    for _ in range(n * 4):
+        lines = []
+        for _ in range(rng.randint(0, 6)):
+            r = rng.random()
+            if r < 0.3:
+                lines.append('$DTYPE' + rng.choice([' ', '', '  ', 'x']) + rand_text(rng, 0, 8, alpha))
+            elif r < 0.6:
+                lines.append(rng.choice(['$DATUM ', '$DATUM', '$DATU', 'DATUM ', '$DATUM $DATUM ']) + rand_text(rng, 0, 12, alpha))
+            else:
+                lines.append(rand_text(rng, 0, 12, alpha))
+        text = ''.join(l + '\n' for l in lines)
+        r = RDFRead(io.StringIO(''))
+        r._buffer = ['x\n'] + text.splitlines(keepends=True)
+        r._RDFRead__m_start = 1
+        bm.add('rdfmeta ' + raw(text), show_meta(r.read_metadata()), ('rdfmeta',), key=text)
+    bm.run()
 
 
 def stream_testfiles(ctx):
@@ -678,38 +1025,44 @@ def io_classes(fmt):
     return getattr(F, fmt), rd
 
 
-def write_read(fmt, objs):
-    """write objs with writer `fmt`, read everything back; returns (text, list of read objects)"""
-    W, Rd = io_classes(fmt)
-    if fmt == 'MRVWrite':
-        f = io.BytesIO() if _mrv_binary() else io.StringIO()
-    else:
-        f = io.StringIO()
+def write_text(fmt, objs):
+    W, _ = io_classes(fmt)
+    f = io.StringIO()
     w = W(f)
     for o in objs:
         w.write(o)
     w.close()
-    text = f.getvalue()
-    f2 = io.BytesIO(text) if isinstance(text, bytes) else io.StringIO(text)
-    return text, list(Rd(f2, calc_cis_trans=True))
+    return f.getvalue()
 
 
-def _mrv_binary():
-    return False
+def read_text(fmt, text, **kw):
+    _, Rd = io_classes(fmt)
+    f = io.BytesIO(text.encode()) if fmt == 'MRVWrite' else io.StringIO(text)
+    return list(Rd(f, calc_cis_trans=True, **kw))
 
 
-def in_meta_domain_sdf(md):
-    """WFmeta for SDF: the format can represent the value (see design/C11.md)"""
+def in_meta_domain(md, fmt):
+    """WFmeta: the metadata the format can represent (everything else is a recorded limitation, see known findings)"""
+    ks = list(md)
+    if len(set(k.strip() for k in ks)) != len(ks):
+        return False
     for k, v in md.items():
-        if not k.strip() or k != k.strip() or '\n' in k or '&gt;' in k or '&lt;' in k or k == 'chython_unparsed_metadata':
+        if not k.strip() or k != k.strip() or '\n' in k or k.startswith('chython_'):
             return False
         if not norm_value(v):
             return False
-        for l in v.split('\n'):
-            if l.startswith('$$$$') or re.match(r'^>([^<]+)<([^>]+)>([^><]*)$', l):
+        if fmt in ('SDFWrite', 'ESDFWrite'):
+            if '&gt;' in k or '&lt;' in k:
                 return False
-    ks = [k for k in md]
-    return len(set(ks)) == len(ks)
+            for l in v.split('\n'):
+                if l.startswith('$$$$') or re.match(r'^>([^<]+)<([^>]+)>([^><]*)$', l):
+                    return False
+        elif fmt in ('RDFWrite', 'ERDFWrite'):
+            for l in v.split('\n'):
+                if l.startswith(('$DTYPE', '$RFMT', '$MFMT')):
+                    return False
+            # the first value line follows `$DATUM ` on the same line; continuation lines are separate lines
+    return True
 
 
 def in_stereo_domain(mol):
@@ -728,81 +1081,345 @@ def in_stereo_domain(mol):
     return True
 
 
-def compare_records(a, b):
-    ra, rb = record(a), record(b)
-    diffs = [f for f in ra if ra[f] != rb[f]]
-    return diffs, ra, rb
+def obj_record(o):
+    from chython import ReactionContainer
+    if isinstance(o, ReactionContainer):
+        return {'rxn': {'reactants': [record(m) for m in o.reactants], 'products': [record(m) for m in o.products],
+                        'reagents': [record(m) for m in o.reagents], 'name': o.name.strip()},
+                'meta': {k: v for k, v in o.meta.items() if not k.startswith('chython_')}}
+    return {'mol': record(o), 'meta': {k: v for k, v in o.meta.items() if not k.startswith('chython_')}}
 
 
-def stream_roundtrip(ctx, mols):
-    """RT: property-level write->read on the real code inside the stated domain (valid molecules, WF metadata)."""
-    rng = ctx.rng
-    for tag, m in mols:
-        if not in_stereo_domain(m):
-            ctx.dist('RT:skipped-explicit-H-on-stereocentre')
-            continue
-        m = m.copy()
-        m.name = rng.choice(['', rand_text(rng, 1, 20, SAFE).strip()])
-        m.meta.clear()
-        md = rand_meta(rng, wf=True)
-        if in_meta_domain_sdf(md):
-            m.meta.update(md)
-        for fmt in ('SDFWrite', 'ESDFWrite'):
-            ctx.count(('RT', fmt, tag, str(m), tuple(sorted(m.meta.items()))))
-            ctx.dist('RT:' + fmt)
+def expected_record(o):
+    r = obj_record(o)
+    r['meta'] = norm_meta(r['meta'])
+    return _jsonish(r)
+
+
+def diff_records(exp, got):
+    """names of the fields of `exp` that differ in `got` (both JSON-normalised)"""
+    if set(exp) != set(got):
+        return ['kind']
+    out = []
+    if exp['meta'] != got['meta']:
+        out.append('meta')
+    if 'mol' in exp:
+        out += [f for f in exp['mol'] if exp['mol'][f] != got['mol'].get(f)]
+    else:
+        for role in ('reactants', 'products', 'reagents'):
+            a, b = exp['rxn'][role], got['rxn'][role]
+            if len(a) != len(b):
+                out.append(f'{role}-count')
+            else:
+                for x, y in zip(a, b):
+                    out += [f'{role}.{f}' for f in x if x[f] != y.get(f)]
+        if exp['rxn']['name'] != got['rxn']['name']:
+            out.append('name')
+    return sorted(set(out))
+
+
+def roundtrip_check(fmt, objs):
+    """property oracle on the real code: returns None or (signature, what, replay-input)"""
+    exp = [expected_record(o) for o in objs]
+    try:
+        text = write_text(fmt, objs)
+    except Exception as e:
+        return (f'C11/roundtrip/{fmt}/write-crash/{type(e).__name__}', f'{fmt}.write raised {e!r}',
+                {'kind': 'roundtrip-objs', 'fmt': fmt, 'smiles': [str(o) for o in objs]})
+    inp = {'kind': 'roundtrip-text', 'fmt': fmt, 'text': text, 'expect': exp}
+    return check_text(inp)
+
+
+def check_text(inp):
+    fmt, text, exp = inp['fmt'], inp['text'], inp['expect']
+    try:
+        back = read_text(fmt, text)
+    except Exception as e:
+        return (f'C11/roundtrip/{fmt}/read-crash/{type(e).__name__}', f'reading back raised {e!r}', inp)
+    if len(back) != len(exp):
+        return (f'C11/roundtrip/{fmt}/record-lost', f'{len(back)} records read back, {len(exp)} written', inp)
+    for i, (e, b) in enumerate(zip(exp, back)):
+        d = diff_records(e, _jsonish(obj_record(b)))
+        if d:
+            return (f'C11/roundtrip/{fmt}/' + '+'.join(x.split('.')[-1] for x in d)[:80],
+                    f'record {i}: fields changed after write->read: {d}', inp)
+    return None
+
+
+def index_check(fmt, text, suffix):
+    """random access by index == sequential reading (real file, real grep index)"""
+    _, Rd = io_classes(fmt)
+    d = tempfile.mkdtemp(prefix='c11_')
+    p = os.path.join(d, 'f' + suffix)
+    inp = {'kind': 'index', 'fmt': fmt, 'text': text, 'suffix': suffix}
+    try:
+        with open(p, 'w', newline='') as f:
+            f.write(text)
+        seq = [_jsonish(obj_record(o)) for o in Rd(p, calc_cis_trans=True)]
+        r = Rd(p, indexable=True, calc_cis_trans=True)
+        try:
+            if len(r) != len(seq):
+                return (f'C11/index/{Rd.__name__}/length', f'len(indexed)={len(r)} but {len(seq)} records are read sequentially', inp)
+            for i in range(len(seq)):
+                try:
+                    o = r[i]
+                except Exception as e:
+                    return (f'C11/index/{Rd.__name__}/{type(e).__name__}', f'reader[{i}] raised {type(e).__name__} (sequential reading returns {len(seq)} records)', inp)
+                if _jsonish(obj_record(o)) != seq[i]:
+                    return (f'C11/index/{Rd.__name__}/record-differs', f'reader[{i}] differs from the {i}-th record read sequentially', inp)
+        finally:
+            r.close()
             try:
-                text, back = write_read(fmt, [m])
-            except Exception as e:
-                ctx.fail(f'C11/roundtrip/{fmt}/crash/{type(e).__name__}', f'{fmt} write->read of {tag} raised {e!r}',
-                         {'kind': 'roundtrip', 'fmt': fmt, 'smiles': str(m), 'tag': tag})
+                os.remove(r._cache_path)
+            except OSError:
+                pass
+    finally:
+        try:
+            os.remove(p)
+            os.rmdir(d)
+        except OSError:
+            pass
+    return None
+
+
+def damage_check(inp):
+    """a damaged record is skipped without losing the others: records before/after position k must be read unchanged"""
+    fmt = inp['fmt']
+    _, Rd = io_classes(fmt)
+    try:
+        back = [_jsonish(obj_record(o)) for o in read_text(fmt, inp['text'])]
+    except Exception as e:
+        return (f'C11/damage/{Rd.__name__}/crash/{type(e).__name__}',
+                f'reading a file whose record {inp["k"]} is damaged ({inp["how"]}) raised {type(e).__name__}: {e}', inp)
+    before, after = inp['before'], inp['after']
+    sep = ('$$$$',) if Rd.__name__ == 'SDFRead' else ('$RFMT', '$MFMT')
+    ls = inp['text'].split('\n')
+    empty_record = any(a.startswith(sep) and b.startswith(sep) for a, b in zip(ls, ls[1:])) or \
+        (Rd.__name__ == 'SDFRead' and ls[0].startswith(sep))
+    if empty_record and len(back) == len(before):
+        return (f'C11/damage/{Rd.__name__}/empty-record-ends-iteration',
+                f'record {inp["k"]} is empty (two consecutive separator lines): reading stops there, {len(after)} following record(s) lost', inp)
+    if back[:len(before)] != before or (after and back[-len(after):] != after) or len(back) < len(before) + len(after):
+        return (f'C11/damage/{Rd.__name__}/other-records-lost',
+                f'record {inp["k"]} damaged ({inp["how"]}): {len(back)} records read, expected the {len(before)} before and {len(after)} after it unchanged', inp)
+    return None
+
+
+def damage_variants(rng, fmt, piece):
+    """damaged versions of ONE written record that keep its separator and introduce no separator-like line"""
+    lines = piece.splitlines(keepends=True)
+    sdf = fmt in ('SDFWrite', 'ESDFWrite')
+    body = lines[:-1] if sdf else lines[1:]          # without `$$$$` / without `$MFMT|$RFMT`
+    wrap = (lambda b: ''.join(b) + lines[-1]) if sdf else (lambda b: lines[0] + ''.join(b))
+    out = [('emptied', wrap([])), ('only M  END', wrap(['M  END\n'])), ('first 2 lines', wrap(body[:2])),
+           ('garbage', wrap([rand_text(rng, 1, 20, SAFE) + '\n' for _ in range(3)])),
+           ('no M  END', wrap([l for l in body if not l.startswith('M  END')]))]
+    for _ in range(4):
+        k, b = corrupt_lines(rng, body)
+        if any(l.startswith(('$$$$', '$RFMT', '$MFMT')) for l in b):
+            continue
+        out.append(('edit:' + k, wrap(b)))
+    return out
+
+
+def make_objects(rng, mols, fmt, k):
+    """k records inside the property's domain for writer `fmt` (molecules; reactions for the RDF/MRV writers)"""
+    from chython import ReactionContainer
+    objs = []
+    for _ in range(k):
+        if fmt in ('RDFWrite', 'ERDFWrite', 'MRVWrite') and rng.random() < 0.5:
+            nr, npr, ng = rng.choice([(1, 1, 0), (2, 1, 0), (1, 2, 1), (1, 1, 2), (2, 2, 0), (1, 0, 0), (0, 1, 0)])
+            ms, nxt = [], 1
+            for _ in range(nr + npr + ng):
+                m = rng.choice(mols)[1].copy()
+                m.remap({n: i for i, n in enumerate(m, nxt)})
+                nxt += len(m)
+                m.meta.clear()
+                m.name = ''
+                ms.append(m)
+            o = ReactionContainer(ms[:nr], ms[nr:nr + npr], ms[nr + npr:])
+        else:
+            o = rng.choice(mols)[1].copy()
+            o.meta.clear()
+        o.name = rng.choice(['', rand_text(rng, 1, 20, SAFE).strip()])
+        md = rand_meta(rng, wf=True)
+        if in_meta_domain(md, fmt):
+            o.meta.update(md)
+        objs.append(o)
+    return objs
+
+
+def stream_roundtrip(ctx, mols, n):
+    """RT: property-level oracles on the real code inside the stated domain"""
+    rng = ctx.rng
+    mols = [(t, m) for t, m in mols if in_stereo_domain(m) and max(m) <= 999]
+    ctx.dist('RT:molecules-in-domain', len(mols))
+    if not mols:
+        return
+    for fmt in WRITERS:
+        for _ in range(n):
+            objs = make_objects(rng, mols, fmt, rng.choice([1, 1, 2, 3]))
+            ctx.count(('RT', fmt, tuple(str(o) for o in objs), tuple(tuple(sorted(o.meta.items())) for o in objs)))
+            ctx.dist('RT:' + fmt)
+            r = roundtrip_check(fmt, objs)
+            if r:
+                ctx.fail(*r)
+    for fmt, suffix in (('SDFWrite', '.sdf'), ('ESDFWrite', '.sdf'), ('RDFWrite', '.rdf'), ('ERDFWrite', '.rdf')):
+        for _ in range(max(2, n // 4)):
+            objs = make_objects(rng, mols, fmt, rng.choice([1, 2, 3, 4]))
+            text = write_text(fmt, objs)
+            ctx.count(('RT-index', fmt, text))
+            ctx.dist('RT:index:' + fmt)
+            r = index_check(fmt, text, suffix)
+            if r:
+                ctx.fail(*r)
+        for _ in range(max(2, n // 4)):
+            k = rng.randint(1, 3)
+            objs = make_objects(rng, mols, fmt, k)
+            pieces = [write_text(fmt, [o]) for o in objs]
+            if fmt in ('RDFWrite', 'ERDFWrite'):
+                head = pieces[0].split('\n', 2)
+                pieces = [p.split('\n', 2)[2] for p in pieces]
+                head = head[0] + '\n' + head[1] + '\n'
+            else:
+                head = ''
+            good = [_jsonish(obj_record(o)) for o in read_text(fmt, head + ''.join(pieces))]
+            if len(good) != k:
                 continue
-            if len(back) != 1:
-                ctx.fail(f'C11/roundtrip/{fmt}/record-lost', f'{fmt}: {len(back)} records read back for {tag}',
-                         {'kind': 'roundtrip-text', 'fmt': fmt, 'text': text, 'expect_records': 1})
-                continue
-            diffs, ra, rb = compare_records(m, back[0])
-            mdiff = norm_meta(m.meta) != {k: v for k, v in back[0].meta.items() if not k.startswith('chython_')}
-            if diffs or mdiff:
-                ctx.fail(f'C11/roundtrip/{fmt}/' + '+'.join(diffs + (['meta'] if mdiff else [])),
-                         f'{fmt} write->read of {tag} changed {diffs} meta_changed={mdiff}',
-                         {'kind': 'roundtrip-text', 'fmt': fmt, 'text': text, 'expect': ra, 'expect_meta': norm_meta(m.meta)})
+            pos = rng.randrange(k)
+            for how, dmg in damage_variants(rng, fmt, pieces[pos]):
+                text = head + ''.join(pieces[:pos] + [dmg] + pieces[pos + 1:])
+                ctx.count(('RT-damage', fmt, text))
+                ctx.dist('RT:damage:' + fmt)
+                r = damage_check({'kind': 'damage', 'fmt': fmt, 'text': text, 'k': pos, 'how': how,
+                                  'before': good[:pos], 'after': good[pos + 1:]})
+                if r:
+                    ctx.fail(*r)
 
 
 def correspond(ctx):
-    ctx.cov['programs'] = 9  # MOLWrite._write_molecule, SDFWrite.write, parse_mol_v2000, postprocess_parsed_molecule,
-    # SDFRead._read_block/_read_mol/read_metadata/read_structure, MDLRead.__iter__, reset_index
+    ctx.cov['programs'] = 20  # MOLWrite/EMOLWrite._write_molecule, SDFWrite/ESDFWrite/RDFWrite/ERDFWrite.write, parse_mol_v2000/v3000,
+    # emol.split, parse_rxn_v2000/v3000, postprocess_parsed_molecule, SDFRead/RDFRead._read_block/read_metadata/read_structure,
+    # MDLRead.__iter__/__getitem__, reset_index x2, MRVWrite/MRVRead (oracle only)
     mols = molecules(ctx, 60 if ctx.quick else 600)
     ctx.dist('molecules', len(mols))
     stream_prim(ctx)
     texts = stream_writer(ctx, mols)
     if texts:
         stream_parse_corrupt(ctx, texts, 400 if ctx.quick else 6000)
+        stream_parse_corrupt_v3(ctx, 300 if ctx.quick else 5000)
         stream_framing(ctx, texts, 40 if ctx.quick else 500)
+        stream_rdf(ctx, texts, 40 if ctx.quick else 500)
     stream_testfiles(ctx)
     stream_meta(ctx, 300 if ctx.quick else 4000)
-    stream_roundtrip(ctx, mols[:: (3 if ctx.quick else 1)])
+    stream_roundtrip(ctx, mols, 25 if ctx.quick else 400)
+
+
+SEARCH_ALWAYS_IN_THOROUGH = False
 
 
 def search(ctx):
-    return
+    """failing-input search: property-level oracles on the real code (never the Lean model), seeded from the
+    disagreeing cases' streams; larger budget than the RT stream that always runs."""
+    import time
+    rng = ctx.rng
+    t_end = time.time() + (60 if ctx.quick else 600)
+    mols = [(t, m) for t, m in molecules(ctx, 40 if ctx.quick else 300) if in_stereo_domain(m) and max(m) <= 999]
+    # field-level stress inside the domain: every charge, isotopes, radicals, extreme numbers/coordinates
+    from chython import smiles
+    stress = []
+    for c in range(-4, 5):
+        m = smiles('[Fe]')
+        m.atom(1)._charge = c
+        m.flush_cache()
+        stress.append((f'Fe{c:+d}', m))
+    for smi in ('[13CH4]', '[2H]O[2H]', '[CH3]', 'C[CH2]', '[18OH2]', '[235U]', 'CC(C)=O', 'C/C=C/C', 'N[C@@H](C)C(O)=O', 'CC=[C@]=CC'):
+        m = smiles(smi)
+        layout(rng, m)
+        stress.append((smi, m))
+    m = smiles('CCO')
+    m.remap({1: 999, 2: 500, 3: 7})
+    stress.append(('high-numbers', layout(rng, m)))
+    m = smiles('CCO')
+    layout(rng, m)
+    m.atom(1).x = 12345.6789
+    m.atom(2).x = -9999.9999
+    m.flush_cache()
+    stress.append(('wide-coordinates', m))
+    pool = stress + mols
+    n = 0
+    while time.time() < t_end and n < (400 if ctx.quick else 6000):
+        n += 1
+        fmt = WRITERS[n % len(WRITERS)]
+        objs = make_objects(rng, pool if n % 3 else stress, fmt, rng.choice([1, 2, 3]))
+        r = roundtrip_check(fmt, objs)
+        if r:
+            ctx.fail(*r)
+            if len(ctx.failures) >= 5:
+                return
+    ctx.notes.append(f'search: {n} write->read cases on the real code, {len(ctx.failures)} failing')
 
 
 def probe(inp):
     kind = inp.get('kind')
     if kind == 'roundtrip-text':
-        _, Rd = io_classes(inp['fmt'])
-        back = list(Rd(io.StringIO(inp['text']), calc_cis_trans=True))
-        if 'expect_records' in inp and len(back) != inp['expect_records']:
-            return True, f'{len(back)} records read, expected {inp["expect_records"]}'
-        if 'expect' in inp:
-            rb = record(back[0])
-            exp = inp['expect']
-            diffs = [f for f in exp if _jsonish(rb[f]) != _jsonish(exp[f])]
-            meta = {k: v for k, v in back[0].meta.items() if not k.startswith('chython_')}
-            if diffs or meta != inp.get('expect_meta', meta):
-                return True, f'fields changed: {diffs}; meta read back {meta}'
-        return False, 'record preserved'
-    return False, f'unknown probe kind {kind}'
+        r = check_text(inp)
+    elif kind == 'index':
+        r = index_check(inp['fmt'], inp['text'], inp['suffix'])
+    elif kind == 'damage':
+        r = damage_check(inp)
+    elif kind == 'meta':
+        r = meta_probe(inp)
+    elif kind == 'index-smiles':
+        objs = _smiles_objs(inp)
+        r = index_check(inp['fmt'], write_text(inp['fmt'], objs), '.sdf' if 'SDF' in inp['fmt'] else '.rdf')
+    elif kind == 'damage-smiles':
+        objs = _smiles_objs(inp)
+        fmt = inp['fmt']
+        pieces = [write_text(fmt, [o]) for o in objs]
+        head = ''
+        if fmt in ('RDFWrite', 'ERDFWrite'):
+            h = pieces[0].split('\n', 2)
+            head = h[0] + '\n' + h[1] + '\n'
+            pieces = [p.split('\n', 2)[2] for p in pieces]
+        good = [_jsonish(obj_record(o)) for o in read_text(fmt, head + ''.join(pieces))]
+        k = inp['k']
+        text = head + ''.join(pieces[:k] + [inp['damaged']] + pieces[k + 1:])
+        r = damage_check({'kind': 'damage', 'fmt': fmt, 'text': text, 'k': k, 'how': inp.get('how', 'replaced'),
+                          'before': good[:k], 'after': good[k + 1:]})
+    else:
+        return False, f'unknown probe kind {kind}'
+    if r:
+        return True, f'{r[0]}: {r[1]}'
+    return False, 'property holds on this input'
+
+
+def _smiles_objs(inp):
+    from chython import smiles
+    objs = []
+    for i, smi in enumerate(inp['smiles']):
+        m = smiles(smi)
+        for j, (_, a) in enumerate(m.atoms()):
+            a.x, a.y = j * 0.825, (j % 2) * 0.5
+        m.flush_cache()
+        if i == 0:
+            m.meta.update(inp.get('meta0', {}))
+        objs.append(m)
+    return objs
+
+
+def meta_probe(inp):
+    """one molecule `C` with the given name/metadata through writer `fmt`: is it read back (modulo the documented
+    per-line whitespace normalisation)?"""
+    from chython import smiles
+    m = smiles('C')
+    m.name = inp.get('name', '')
+    m.meta.update(inp['meta'])
+    others = [smiles('CC'), smiles('CCC')] if inp.get('neighbours') else []
+    r = roundtrip_check(inp['fmt'], [m] + others)
+    if r:
+        return (inp.get('signature', r[0]), r[1], inp)
+    return None
 
 
 def _jsonish(x):
